@@ -139,8 +139,8 @@ func sSub(a, b Term) Term {
 	}
 	return "(- " + a + " " + b + ")"
 }
-func sLe(a, b Term) Term { return "(<= " + a + " " + b + ")" }
-func sLt(a, b Term) Term { return "(< " + a + " " + b + ")" }
+func sLe(a, b Term) Term  { return "(<= " + a + " " + b + ")" }
+func sLt(a, b Term) Term  { return "(< " + a + " " + b + ")" }
 func sSel(a, i Term) Term { return "(select " + a + " " + i + ")" }
 
 // ---------------------------------------------------------------------------
@@ -219,6 +219,17 @@ func scratchFile(prefix, ext string) string {
 	return filepath.Join(scratch(), fmt.Sprintf("%s%d%s", prefix, n, ext))
 }
 
+var scriptErrMu sync.Mutex
+var scriptErrors []string
+
+func noteScriptError(msg string) {
+	scriptErrMu.Lock()
+	defer scriptErrMu.Unlock()
+	if len(scriptErrors) < 20 {
+		scriptErrors = append(scriptErrors, msg)
+	}
+}
+
 var lambdaRe = regexp.MustCompile(`\(lambda `)
 
 // solve races the solvers on script. which: indices into solvers (nil = all).
@@ -259,6 +270,9 @@ func solve(script string, timeoutS int, seed int, useCvc5 bool) SolveResult {
 				v = VUnsat
 			case "sat":
 				v = VSat
+			}
+			if strings.HasPrefix(first, "(error") && ctx.Err() == nil {
+				noteScriptError(s.name + ": " + first)
 			}
 			ch <- one{s.name, v, txt, time.Since(start).Seconds()}
 		}(s)
